@@ -69,8 +69,21 @@ func VerifC15Failures() {
 		batch := false
 		var unprocessed map[string][]types.WriteRequest
 		reqs := []types.WriteRequest{
-			{PutRequest: &types.PutRequest{Item: vItem{"p": vS("n"), "v": vS(x)}}},
+			{PutRequest: &types.PutRequest{Item: vItem{"p": vS("n"), "v": vS(x), "el": &types.AttributeValueMemberL{Value: []types.AttributeValue{}},
+				"em": &types.AttributeValueMemberM{Value: vItem{"in": &types.AttributeValueMemberL{Value: []types.AttributeValue{}}}}}}},
 			{DeleteRequest: &types.DeleteRequest{Key: vItem{"p": vS("k")}}},
+		}
+		// what comes back as unprocessed is the request that was sent: its empty list is a list, its map a map
+		sentPut := func(it vItem) bool {
+			el, ok1 := it["el"].(*types.AttributeValueMemberL)
+			em, ok2 := it["em"].(*types.AttributeValueMemberM)
+			if !ok1 || !ok2 || len(el.Value) != 0 || len(em.Value) != 1 || len(it) != 4 {
+				return false
+			}
+			in, ok3 := em.Value["in"].(*types.AttributeValueMemberL)
+			pv, _ := vGetS(it, "p")
+			vv, _ := vGetS(it, "v")
+			return ok3 && len(in.Value) == 0 && pv == "n" && vv == x
 		}
 		// the failure comes first: a request that would also be refused for its own sake (missing table,
 		// unused placeholder) still gets the configured error
@@ -135,7 +148,7 @@ func VerifC15Failures() {
 				// never dropped: what comes back is the request that was sent, so that a retry applies it
 				puts, dels := 0, 0
 				for _, u := range unprocessed[vTbl] {
-					if u.PutRequest != nil && u.DeleteRequest == nil && vSameItem(u.PutRequest.Item, vItem{"p": vS("n"), "v": vS(x)}) {
+					if u.PutRequest != nil && u.DeleteRequest == nil && sentPut(u.PutRequest.Item) {
 						puts++
 					}
 					if u.DeleteRequest != nil && u.PutRequest == nil && vSameItem(u.DeleteRequest.Key, vItem{"p": vS("k")}) {
